@@ -19,6 +19,7 @@ type rewRef struct {
 	E        map[string]map[string]*big.Rat // position key -> reward denom -> accrued, unclaimed entitlement
 	NAlloc   map[string]int                 // position key -> allocations since its last claim (rounding slack)
 	Pending  map[int]map[string]*big.Rat    // validator -> denom -> module rewards pending in x/distribution at last observation
+	BigStake bool                           // some validator held >= 1e18 base units of an asset at some point of this history
 	Tainted  bool                           // a value-changing event happened while entitlements were outstanding (C12's domain)
 	PoolIn   map[string]*big.Int            // cumulative coins received by the rewards pool
 	PoolOut  map[string]*big.Int            // cumulative coins paid out of the rewards pool
@@ -67,6 +68,7 @@ func (r *rewRef) Clone() engine.Ref {
 		}
 	}
 	n.Tainted = r.Tainted
+	n.BigStake = r.BigStake
 	return n
 }
 
@@ -103,7 +105,7 @@ func (r *rewRef) Digest() []byte {
 		}
 	}
 	sort.Strings(parts)
-	return []byte(fmt.Sprintf("%s|%v", strings.Join(parts, ";"), r.Tainted))
+	return []byte(fmt.Sprintf("%s|%v|%v", strings.Join(parts, ";"), r.Tainted, r.BigStake))
 }
 
 // modulePending reads, on a discarded branch, the rewards x/distribution currently owes the alliance module for validator v.
